@@ -15,6 +15,9 @@ mro full H EXT OWN DOC  ->  per class 1..n-1 not in EXT:
                             <_mro>:<number of 'mro' reports>:<find('m') owner or ->:<doc source, - (none) or x (class has no m)>
 mro pyfull H OWN DOC    ->  per class 1..n-1: <__mro__ or reject>:<lookup owner or ->:<doc source, - (none) or x (class has no m)>:<inspect.getdoc source>
 ```
+mro second SC RAW INIT RES TRIG -> `_finalbaseobjects` per class (N = not set; 0 = None, k+1 = class k) after
+                            `_init_mro` ran for the classes TRIG: SC scope per class, RAW base names per class,
+                            INIT `_initialbaseobjects` (0 = None), RES triples scope,name,class
 EXT = classes that are external (unresolved string bases such as `typing.Generic`), OWN = classes
 defining member `m`, DOC = classes whose `m` has a docstring. -/
 namespace Mro
@@ -78,6 +81,20 @@ def handle (args : List String) : String :=
           ++ ":" ++ (if owns c 0 then showOpt (PyMro.docSource bases owns hasDoc c 0) else "x")
           ++ ":" ++ (if owns c 0 then showOpt (PyMro.inspectGetdoc bases owns hasDoc c 0) else "x"))
     | _, _, _ => "bad-op"
+  | ["second", sc, raw, ini, res, trig] =>
+    match Proto.natList sc, parseLists raw, parseLists ini, parseLists res, Proto.natList trig with
+    | some scs, some raws, some inis, some ress, some trigs =>
+      let d : Decls := {
+        scope := fun o => scs.getD o 0
+        raw := fun o => raws.getD o []
+        initial := fun o => (inis.getD o []).map fun v => if v = 0 then none else some (v - 1)
+        resolve := fun s n => (ress.find? fun t => t.length == 3 && t.getD 0 0 == s && t.getD 1 0 == n).map (·.getD 2 0) }
+      let c := secondPass d (fun _ o => d.scope o) (scs.length + 1) trigs
+      "|".intercalate ((List.range scs.length).map fun o =>
+        match c.get o with
+        | none => "N"
+        | some fb => Proto.showNatList (fb.map fun b => match b with | some k => k + 1 | none => 0))
+    | _, _, _, _, _ => "bad-op"
   | _ => "bad-op"
 
 end Mro
